@@ -201,12 +201,14 @@ def abstract_episode(ep: List[Dict[str, Any]]) -> Tuple[Optional[List[Dict[str, 
     return out, ''
 
 
+SOLVER_CONSTANTS = '''  Cfgs = {}
+  EqOuts = {}
+  HookOuts = {}
+  HookWrites = {}'''
+
 TRACE_CFG = '''SPECIFICATION TraceSpec
 CONSTANTS
-  Cfgs = {{}}
-  EqOuts = {{}}
-  HookOuts = {{}}
-  HookWrites = {{}}
+{constants}
 CONSTRAINT Track
 POSTCONDITION Accepted
 CHECK_DEADLOCK FALSE
@@ -219,13 +221,13 @@ SOLVER_INVARIANTS = ['C02_FirstConv', 'C02_SolvedIffTrue', 'C02_Fail', 'C02_Reje
 
 
 def validate_batches(batches: List[List[List[Dict[str, Any]]]], *, tag: str, invariants=SOLVER_INVARIANTS,
-                     module: str = 'SolverTrace', timeout: int = 1800):
+                     module: str = 'SolverTrace', timeout: int = 1800, constants: str = SOLVER_CONSTANTS):
     """Each batch (list of abstract episodes) is validated by one single-worker TLC.
     Returns per-batch dicts: accepted, consumed, total, violated, first_bad_episode."""
     import re
     from concurrent.futures import ThreadPoolExecutor
 
-    cfg_text = TRACE_CFG.format(invariants='\n'.join(f'INVARIANT {i}' for i in invariants))
+    cfg_text = TRACE_CFG.format(invariants='\n'.join(f'INVARIANT {i}' for i in invariants), constants=constants)
     work = core.subdir('traces')
 
     def one(bi: int):
@@ -260,13 +262,13 @@ def validate_batches(batches: List[List[List[Dict[str, Any]]]], *, tag: str, inv
 
 
 def validate_episodes(raw_episodes: List[List[Dict[str, Any]]], *, tag: str, nbatches: int = core.NCPU,
-                      bisect: bool = True):
+                      bisect: bool = True, abstractor=None, **tlc_kw):
     """Abstract, batch and validate.  Returns (n_accepted, rejected list, stats).  A rejected batch is
     re-run episode by episode (bisect) so that every rejected episode is identified."""
     stats: Dict[str, int] = {}
     abstract: List[Tuple[List[Dict[str, Any]], List[Dict[str, Any]]]] = []
     for ep in raw_episodes:
-        a, why = abstract_episode(ep)
+        a, why = (abstractor or abstract_episode)(ep)
         if a is None:
             stats[f'skipped_{why}'] = stats.get(f'skipped_{why}', 0) + 1
         else:
@@ -274,7 +276,7 @@ def validate_episodes(raw_episodes: List[List[Dict[str, Any]]], *, tag: str, nba
     if not abstract:
         return 0, [], stats, {'states': 0, 'generated': 0}
     idx_batches = core.chunks(list(range(len(abstract))), nbatches)
-    results = validate_batches([[abstract[i][0] for i in b] for b in idx_batches], tag=tag)
+    results = validate_batches([[abstract[i][0] for i in b] for b in idx_batches], tag=tag, **tlc_kw)
     tot = {'states': sum(r['states'] for r in results), 'generated': sum(r['generated'] for r in results)}
     accepted = 0
     rejected = []
@@ -299,7 +301,7 @@ def validate_episodes(raw_episodes: List[List[Dict[str, Any]]], *, tag: str, nba
             if rounds >= MAX_REJ_PER_BATCH:
                 stats['unexamined_after_many_rejections'] = stats.get('unexamined_after_many_rejections', 0) + len(b)
                 break
-            r = validate_batches([[abstract[i][0] for i in b]], tag=f'{tag}-re{b[0]}')[0]
+            r = validate_batches([[abstract[i][0] for i in b]], tag=f'{tag}-re{b[0]}', **tlc_kw)[0]
             tot['states'] += r['states']
             tot['generated'] += r['generated']
     return accepted, rejected, stats, tot
